@@ -17,6 +17,8 @@ Decided (structural, necessary):
    the amount is deducted from, and it is priced with the price of that side's token; reassign_values maps
    is_token_in_long -> (long, short) prices; Delta::new_one_side / new_both_sides put `first` on the named side.
 """
+import json
+import os
 import re
 
 from .. import analyses as A
@@ -25,16 +27,9 @@ from ..model import short_path
 
 SIDE = r"^self\.params\.is_token_in_long$"
 MUT_RE = r"(_mut$|BaseMarketMut|SwapMarketMut|LiquidityMarketMut|PositionImpactMarketMut|PerpMarketMut|BorrowingFeeMarketMut)"
-WRITEBACK = {  # Cache field -> accessor that must receive it (naming agreement, confirmed by reading)
-    "liquidity": "liquidity_pool_mut",
-    "virtual_inventory": "virtual_inventory_for_swaps_pool_mut",
-    "swap_impact": "swap_impact_pool_mut",
-    "claimable_fee": "claimable_fee_pool_mut",
-}
-SOURCE = {  # Cache field -> immutable accessor its new value must be computed from
-    "swap_impact": "BaseMarket::swap_impact_pool",
-    "claimable_fee": "BaseMarket::claimable_fee_pool",
-}
+_T = json.load(open(os.path.join(os.path.dirname(os.path.dirname(os.path.dirname(os.path.abspath(__file__)))), "tables", "C04.json")))
+WRITEBACK = {k: v["accessor"] for k, v in _T["writeback"].items()}   # Cache field -> accessor that must receive it
+SOURCE = dict(_T["source"])                                          # Cache field -> immutable accessor it is computed from
 
 
 def run(ctx):
